@@ -292,7 +292,9 @@ def dynamic_stage(ctx, seed, scale=1.0, tag='gen'):
         ctx.stats['hist']['corpus_cases'] = len(cor)
     for gi, g in enumerate(ctx.cfg.get('gens', [])):
         family, profile, count_q, count_t, size = g
-        count = int((count_q if ctx.tier == 'quick' else count_t) * scale)
+        # thorough tier: the configured count times VERIF_THOROUGH_SCALE (default 3; per-property override `thorough_scale`)
+        tscale = float(os.environ.get('VERIF_THOROUGH_SCALE', ctx.cfg.get('thorough_scale', 3)))
+        count = int((count_q if ctx.tier == 'quick' else count_t * tscale) * scale)
         path = os.path.join(ctx.work, f'{tag}{gi}.req')
         rc, out = sh([HBIN, 'gen', family, profile, str(seed + gi), str(count), str(size), path], timeout=1800)
         if rc != 0:
